@@ -12,6 +12,7 @@ type (
 	RWMutex   = core.RWMutex
 	WaitGroup = core.WaitGroup
 	Once      = core.Once
+	Cond      = core.Cond
 	Locker    = sync.Locker
 )
 
@@ -36,3 +37,6 @@ func OnceValue[T any](f func() T) func() T {
 	var v T
 	return func() T { o.Do(func() { v = f() }); return v }
 }
+
+// NewCond mirrors sync.NewCond.
+func NewCond(l Locker) *Cond { return core.NewCond(l) }
